@@ -184,9 +184,23 @@ var c01Bundles = map[string]c01Bundle{
 	"base":          {tag: "base", attrs: `href="http://[bad"`, void: true},
 	"meta-link":     {tag: "link", attrs: `rel="stylesheet" href="missing.css"`, void: true},
 	"style-attr":    {tag: "div", attrs: `style="color:red;;;{}width:10px;@x;height:"`},
+	// complete structures in one node (multi-page on the small geometries)
+	"full-table-coll": {tag: "table", decl: "border-collapse:collapse;width:100%", rules: `%s td,%s th{border:2px solid red;padding:1px}%s thead{display:table-header-group}%s tfoot{display:table-footer-group}`,
+		inner: `<thead><tr><th>h a</th><th>h b</th></tr></thead><tfoot><tr><td colspan="2">foot</td></tr></tfoot><tbody><tr><td>r1 a</td><td>r1 b</td></tr><tr><td>r2 a</td><td>r2 b</td></tr><tr><td>r3 a</td><td>r3 b</td></tr><tr><td>r4 a</td><td>r4 b</td></tr><tr><td>r5 a</td><td>r5 b</td></tr><tr><td>r6 a</td><td>r6 b</td></tr><tr><td>r7 a</td><td>r7 b</td></tr><tr><td>r8 a</td><td>r8 b</td></tr><tr><td rowspan="2">rs</td><td>x</td></tr><tr><td>y</td></tr></tbody>`, void: true},
+	"full-table-sep": {tag: "table", decl: "border-spacing:2px 4px;border:1px solid", rules: `%s td{border:1px dotted;vertical-align:bottom}`,
+		inner: `<caption>cap</caption><colgroup><col span="1" style="width:20px"><col></colgroup><thead><tr><th>h a</th><th>h b</th></tr></thead><tbody><tr><td>r1 a</td><td>r1 b</td></tr><tr><td>r2 a</td><td>r2 b</td></tr><tr><td>r3 a</td><td>r3 b</td></tr><tr><td>r4 a</td><td>r4 b</td></tr><tr><td>r5 a</td><td>r5 b</td></tr><tr><td>r6 a</td><td>r6 b</td></tr><tr><td>r7 a</td><td>r7 b</td></tr><tr><td>r8 a</td><td>r8 b</td></tr></tbody>`, void: true},
+	"full-list":      {tag: "ol", attrs: `start="3"`, decl: "list-style:upper-roman outside;margin-left:20px", inner: `<li>item 1</li><li>item 2</li><li>item 3</li><li>item 4</li><li>item 5</li><li>item 6</li><li><ul><li>n1<li>n2</ul></li>`, void: true},
+	"full-flex":      {tag: "div", decl: "display:flex;flex-wrap:wrap;gap:2px;align-items:center", inner: `<div style="flex:1 0 40px">f1 f1</div><div style="flex:2 1 30px;order:-1">f2</div><div style="width:50px;height:40px">f3</div><div style="margin:auto">f4</div><div style="flex-basis:100%">f5 f5 f5 f5</div>`, void: true},
+	"full-grid":      {tag: "div", decl: "display:grid;grid-template-columns:repeat(3,1fr);grid-auto-rows:20px;gap:1px", inner: `<div>g1</div><div style="grid-column:span 2">g2</div><div style="grid-row:span 2">g3</div><div>g4</div><div>g5</div><div>g6</div><div>g7</div>`, void: true},
+	"full-columns":   {tag: "div", decl: "columns:2;column-gap:3px", inner: `<p>c1 c1 c1 c1 c1 c1</p><p>c2 c2 c2 c2</p><h1 style="column-span:all">span</h1><p>c3 c3 c3 c3 c3 c3 c3 c3</p><p style="break-before:column">c4</p>`, void: true},
+	"long-text":      {tag: "p", decl: "orphans:2;widows:2;text-align:justify", text: "word1 word2 word3 word4 word5 word6 word7 word8 word9 word10 word11 word12 word13 word14 word15 word16 word17 word18 word19 word20 word21 word22 word23 word24 word25 word26 word27 word28 word29 word30 word31 word32 word33 word34 word35 word36 word37 word38 word39 word40 word41 word42 word43 word44 word45 word46 word47 word48 word49 word50 word51 word52 word53 word54 word55 word56 word57 word58 word59 word60"},
+	"footnotes-many": {tag: "p", inner: `a<span style="float:footnote">note one</span> b<span style="float:footnote">note two two two two two two two two</span> c<span style="float:footnote">note three</span> d d d d d d d d d d d d d d d d`, void: true},
+	"var-lasso":      {tag: "div", decl: "--a:var(--b);--b:var(--c);--c:var(--b);width:var(--a,10px);--d:var(--e,var(--d));margin-left:var(--d,1px)"},
+	"floats-many":    {tag: "div", inner: `<div style="float:left;width:45%;height:25px">fl1</div><div style="float:right;width:45%;height:45px">fr1</div><p>t1 t1 t1 t1 t1 t1 t1 t1</p><div style="float:left;clear:left;width:30px">fl2 fl2 fl2 fl2 fl2 fl2</div><p style="clear:both">t2</p>`, void: true},
+	"abs-in-rel":     {tag: "div", decl: "position:relative;height:20px", inner: `<div style="position:absolute;top:100%;left:0;right:0;height:80px">abs abs abs abs abs abs</div><div style="position:absolute;inset:auto 0 0 auto;width:min-content">a2</div>`, void: true},
 	// a footnote whose text depends on counter(pages): its height changes the number of pages, which changes its text (the
 	// pagination rounds of layoutDocument do not converge and must be cut off)
-	"osc-pages": {tag: "span", decl: "float:footnote", rules: `@counter-style long{system:cyclic;symbols:"xxxx xxxx xxxx xxxx xxxx xxxx xxxx xxxx xxxx xxxx xxxx xxxx xxxx xxxx" "y"}%s::after{content:counter(pages,long)}`},
+	"osc-pages":  {tag: "span", decl: "float:footnote", rules: `@counter-style long{system:cyclic;symbols:"xxxx xxxx xxxx xxxx xxxx xxxx xxxx xxxx xxxx xxxx xxxx xxxx xxxx xxxx" "y"}%s::after{content:counter(pages,long)}`},
 	"pages-text": {tag: "div", rules: `%s::after{content:counter(pages) " " counter(page) " " target-counter("#t",page)}`},
 }
 
@@ -276,8 +290,12 @@ func c01HTML(s *c01Scn, subst map[string]string) (string, error) {
 		if b.text != "" {
 			pre, post = b.text+" ", ""
 		}
-		if b.void && b.tag != "svg" {
-			// void element: its children follow it
+		if b.void {
+			// a void element, or a complete structure (inner HTML, no text of its own): its children follow it
+			if b.inner != "" {
+				body.WriteString(b.inner)
+				fmt.Fprintf(&body, "</%s>", b.tag)
+			}
 			for _, c := range kids[k] {
 				if err := emit(c); err != nil {
 					return err
@@ -286,18 +304,7 @@ func c01HTML(s *c01Scn, subst map[string]string) (string, error) {
 			return nil
 		}
 		body.WriteString(b.inner)
-		if !b.void {
-			body.WriteString(pre)
-		}
-		if b.tag == "svg" {
-			body.WriteString("</svg>")
-			for _, c := range kids[k] {
-				if err := emit(c); err != nil {
-					return err
-				}
-			}
-			return nil
-		}
+		body.WriteString(pre)
 		for _, c := range kids[k] {
 			if err := emit(c); err != nil {
 				return err
@@ -357,11 +364,12 @@ func (e c01Ev) MarshalJSON() ([]byte, error) {
 }
 
 type c01Rec struct {
-	Sid    int    `json:"sid"`
-	Cfg    string `json:"cfg"`
-	Units  int    `json:"units"`
-	Fnotes int    `json:"fnotes"` // upper bound of the number of footnotes of the document
-	Evs   []c01Ev `json:"evs"`
+	Sid    int     `json:"sid"`
+	Cfg    string  `json:"cfg"`
+	Units  int     `json:"units"`
+	Fnotes int     `json:"fnotes"` // upper bound of the number of footnotes of the document
+	Digest string  `json:"dg"`     // digest of the recorded backend calls (returning renders)
+	Evs    []c01Ev `json:"evs"`
 }
 
 // flatten a resume stack into its sorted list of root-to-leaf paths
@@ -490,6 +498,9 @@ func c01Render(sid int, doc string, cfg string, out *drv.Out) (c01Rec, *rec.Doc,
 		recd = nil
 	default:
 		add(c01Ev{E: "Return"})
+		if recd != nil {
+			r.Digest, _ = c15Digest(recd)
+		}
 	}
 	// long page loops are not validated step by step (the trace would dominate the run): the page events are replaced
 	// by one LongLoop event carrying the number of pages of the last round (a render that did not return keeps its
